@@ -48,6 +48,16 @@ class _Interrupter:
         pass
 
 
+def quiet(thunk):
+    """verbose=True without the noise"""
+    old = sys.stdout
+    sys.stdout = open(os.devnull, "w")
+    try:
+        return thunk()
+    finally:
+        sys.stdout.close(); sys.stdout = old
+
+
 def interrupted(thunk, needle):
     old = sys.stdout
     sys.stdout = _Interrupter(needle)
@@ -62,7 +72,8 @@ def scenarios(rng, tier):
     S = sp.random(70, 12, density=0.4, format="csr", dtype=np.float32, random_state=int(rng.integers(1 << 30)))
     good_graph = rng.integers(0, 70, size=(70, 5)).astype(np.int32)
     out = []
-    jobs = [None, -1, 1, 2, 3] if tier == "quick" else [None, -1, 1, 2, 3, 5, 8, 16]
+    # (the machine maximum too: with a lowered entry count n_jobs RAISES the count, and that must be undone as well)
+    jobs = [None, -1, 1, 2, 3, numba.config.NUMBA_NUM_THREADS] if tier == "quick" else [None, -1, 1, 2, 3, 5, 8, numba.config.NUMBA_NUM_THREADS]
     for nj in jobs:
         out.append(("ok-dense", nj, lambda nj=nj: NNDescent(X, n_neighbors=5, n_jobs=nj, random_state=1)))
         out.append(("ok-dense-prepare", nj, lambda nj=nj: NNDescent(X, n_neighbors=5, n_jobs=nj, random_state=1).prepare()))
@@ -96,6 +107,8 @@ def scenarios(rng, tier):
         out.append(("fail-interrupt-in-prepare", nj, prep_interrupt))
         out.append(("fail-sparse-unsupported-metric", nj,
                     lambda nj=nj: NNDescent(S, metric="mahalanobis", n_neighbors=5, n_jobs=nj, random_state=1)))
+        out.append(("fail-init-graph-size-verbose", nj,
+                    lambda nj=nj: quiet(lambda: NNDescent(X, n_neighbors=5, n_jobs=nj, random_state=1, init_graph=good_graph[:50], verbose=True))))
         out.append(("fail-init-graph-size", nj,
                     lambda nj=nj: NNDescent(X, n_neighbors=5, n_jobs=nj, random_state=1, init_graph=good_graph[:50])))
         out.append(("fail-init-dist-shape", nj,
@@ -177,7 +190,7 @@ def run(res, tier, seed, search):
                 "recorded set_num_threads calls); distinct = (scenario, n_jobs, entry count)")
     maxt = numba.config.NUMBA_NUM_THREADS
     starts = [maxt, max(1, maxt // 2)] if tier == "quick" and not search else [maxt, max(1, maxt // 2), 4]
-    light = ("ok-dense", "ok-dense-compressed", "fail-init-graph-size", "fail-sparse-unsupported-metric", "ok-dense-prepare")
+    light = ("ok-dense", "ok-dense-compressed", "fail-init-graph-size", "fail-sparse-unsupported-metric", "ok-dense-prepare", "fail-init-graph-size-verbose")
     for si, start in enumerate(starts):
         for name, nj, thunk in scenarios(rng, tier):
             if tier == "quick" and not search and si > 0 and name not in light:
